@@ -1,6 +1,7 @@
 import Wayfind.Proofs.Reachable
 import Wayfind.Model.Errors
 import Wayfind.Generated.Facts
+import Wayfind.Proofs.ParseErrors
 
 /-! # C07 — no input makes the router panic
 The model is written with total list operations (`take`, `drop`, `getElem?`, truncated subtraction), so totality of
@@ -13,6 +14,9 @@ shows that a successful insert only stores constraint names that are registered,
 (`C07_registry_grows`).
 (3) *Tree invariants* on every reachable state (`reachable_good3`): labels are non-empty (`prefix[0]` is in range),
 `position`-found indices exist, catch-all nodes carry data.
+(4) *The renderer's `replace_range` is in bounds*: the only panic site of `impl Display for TemplateError` is the
+duplicate-parameter caret line; `C07_duplicate_ranges_in_bounds` shows the two ranges the parser reports are disjoint,
+ordered and inside the template.
 Status: **partial** — stack depth (recursion proportional to group nesting and tree depth), allocation failure, and
 `usize`/`i32` wrap-around (needs inputs ≥ 2^31 bytes) are outside any model; the bound-checks of the parser's
 cursor arithmetic and of the error renderer are tied by running every operation of every suite under
@@ -60,3 +64,14 @@ theorem C07_constraints_registered (r r' : Router) (t : Bytes) (d : Nat) (h : r.
     simp only [List.mem_flatMap, List.mem_filterMap, List.mem_reverse]
     exact ⟨e, he, p, hpm, hc⟩)
   simpa using this
+
+/-- the ranges of a duplicate-parameter error fit the line of `template.len()` spaces they are written into -/
+theorem C07_duplicate_ranges_in_bounds (input t n : Bytes) (f fl s sl : Nat)
+    (h : parseTemplates input = .error (.duplicateParameter t n f fl s sl)) : f + fl ≤ s ∧ s + sl ≤ t.length := by
+  rcases parseTemplates_error_cases input _ h with ⟨he, _⟩ | ⟨p, hp | hp⟩ | ⟨es, raw, _, _, htpl, hin⟩
+  · cases he
+  · cases hp
+  · cases hp
+  · simp only [TErr.tpl, Option.some.injEq] at htpl
+    subst htpl
+    exact hin
